@@ -198,8 +198,8 @@ func VerifC03TwoStep() {
 	nowX := vrt.Time("nowX")
 	vrt.Assume(!nowX.Before(now1) && !now2.Before(nowX))
 	w.now = nowX
-	released := false  // first's lease ended by an accepted ack/nack/mark-dead/cancel
-	visibleAt := now1  // if released back to queued: earliest instant it may be offered
+	released := false // first's lease ended by an accepted ack/nack/mark-dead/cancel
+	visibleAt := now1 // if released back to queued: earliest instant it may be offered
 	requeuedBack := false
 	liveAtX := nowX.Before(first.LeaseUntil)
 	until := first.LeaseUntil
